@@ -191,7 +191,7 @@ def run_property(prop: str, tier: str, repo_root: str, rules: Callable[[Ctx], No
         rp = os.path.join(replay_dir, f"{prop}-{i}.json")
         with open(rp, "w") as fh:
             json.dump({"property": prop, "obligation": o.as_dict(), "key": o.key}, fh, indent=1)
-        print(f"FINDING rule={o.rule} construct={o.construct}\n   derived : {o.derived}\n   expected: {o.expected}\n   {o.detail}")
+        print(f"FINDING rule={o.rule} construct={o.construct}\n   derived : {o.derived[:400]}\n   expected: {o.expected[:400]}\n   {o.detail[:400]}")
         print(f"VIOLATION property={prop} replay={rp}")
     for o in undecided:
         print(f"UNDECIDED property={prop} {o.rule} {o.construct}: {o.detail or o.derived}")
